@@ -424,9 +424,16 @@ impl<'buf> ModuleReader<'buf> {
         name_offset: u64,
     ) -> Result<String, Error> {
         assert!(name_offset < strtab_size);
-        let name = self
-            .module_memory
-            .read(strtab_offset + name_offset, strtab_size - name_offset)?;
+        let name_length = strtab_size - name_offset;
+        let name_start = strtab_offset
+            .checked_add(name_offset)
+            .ok_or(Error::ReadModuleMemory {
+                offset: strtab_offset,
+                length: name_length,
+                start_address: None,
+                error: nix::Error::EOVERFLOW,
+            })?;
+        let name = self.module_memory.read(name_start, name_length)?;
         CStr::from_bytes_until_nul(&name)
             .map(|s| s.to_string_lossy().into_owned())
             .map_err(|_| Error::StrTabNoNulByte)
